@@ -14,6 +14,7 @@ Local Notation relT := (TxFlow_Inv.relT all).
 Local Notation InvS := (TxFlow_Inv.InvS all).
 Local Notation InvU := (TxFlow_Inv.InvU dl all).
 Local Notation Inv := (TxFlow_Inv.Inv dl all).
+Local Notation inblock := (TxFlow_Inv.inblock all).
 Local Notation vs_chain0 := (TxFlow_Inv.vs_chain0 all).
 Local Notation vs_D := (TxFlow_Inv.vs_D all).
 Local Notation vs_FL := (TxFlow_Inv.vs_FL all).
@@ -23,6 +24,8 @@ Local Notation vs_REL := (TxFlow_Inv.vs_REL all).
 Local Notation vs_OUTS := (TxFlow_Inv.vs_OUTS all).
 Local Notation vs_PRF := (TxFlow_Inv.vs_PRF all).
 Local Notation vs_PRF0 := (TxFlow_Inv.vs_PRF0 all).
+Local Notation vs_PRFB := (TxFlow_Inv.vs_PRFB all).
+Local Notation vs_BODY := (TxFlow_Inv.vs_BODY all).
 Local Notation vu_clock := (TxFlow_Inv.vu_clock dl all).
 Local Notation vu_sync := (TxFlow_Inv.vu_sync dl all).
 Local Notation vu_chain := (TxFlow_Inv.vu_chain dl all).
@@ -43,14 +46,12 @@ Local Notation vu_VNOW := (TxFlow_Inv.vu_VNOW dl all).
 Local Notation vu_VPER := (TxFlow_Inv.vu_VPER dl all).
 Local Notation vu_UUNS := (TxFlow_Inv.vu_UUNS dl all).
 Local Notation vu_CONF := (TxFlow_Inv.vu_CONF dl all).
-Local Notation vu_RS := (TxFlow_Inv.vu_RS dl all).
 Local Notation vu_HELD := (TxFlow_Inv.vu_HELD dl all).
-Local Notation vu_LIMBO := (TxFlow_Inv.vu_LIMBO dl all).
+Local Notation vu_BODY := (TxFlow_Inv.vu_BODY dl all).
+Local Notation vu_LND := (TxFlow_Inv.vu_LND dl all).
 Local Notation T_body := (TxFlow_Inv.T_body dl all Hv).
 Local Notation relT_rel := (TxFlow_Inv.relT_rel dl all Hv).
 Local Notation mentions_T := (TxFlow_Inv.mentions_T all).
-Local Notation cnf_conf := (TxFlow_Inv.cnf_conf).
-Local Notation cnf_false := (TxFlow_Inv.cnf_false).
 Local Notation gen_states := (TxFlow_Inv.gen_states all).
 Local Notation gen_checks := (TxFlow_Inv.gen_checks dl all).
 Local Notation InvS_frame := (TxFlow_Inv.InvS_frame all).
@@ -65,12 +66,6 @@ Local Notation step_inv := (TxFlow_Inv.step_inv dl all).
 Local Notation monitor_step_events := (TxFlow_Inv.monitor_step_events dl).
 Local Notation monitor_step_reorg := (TxFlow_Inv.monitor_step_reorg dl).
 Local Notation step_delay := (TxFlow_Inv.step_delay dl all).
-Local Notation inblock := (TxFlow_Inv.inblock all).
-Local Notation vs_PRFB := (TxFlow_Inv.vs_PRFB all).
-Local Notation Ext_no_both := (TxFlow_Inv.Ext_no_both).
-Local Notation confirmed_iff := (TxFlow_Inv.confirmed_iff).
-Local Notation conf_dec := (TxFlow_Inv.conf_dec).
-Local Notation conf_same_proof := (TxFlow_Inv.conf_same_proof).
 
 (* ---------------------------------------------------------------------------------------- *)
 (* the chain up to a held block *)
@@ -92,11 +87,9 @@ Qed.
 
 (* ---------------------------------------------------------------------------------------- *)
 (* the headers handler reverts the chain *)
-Lemma Inv_revert Rs n m prev :
-  Inv Rs n m -> (forall t, t ∈ Rs -> confirmed (revert n prev) t = true) ->
-  Inv Rs (revert n prev) (revert_ms m prev).
+Lemma Inv_revert n m prev : Inv n m -> Inv (revert n prev) (revert_ms m prev).
 Proof.
-  intros [HS HU] HRs.
+  intros [HS HU].
   pose proof (vs_chain0 _ _ HS) as Hch0.
   assert (Hsub : forall s, conf (revert n prev) s -> conf n s).
   { intros s (b & Hb & Hc). exists b. split; [exact Hb|]. cbn [chain revert] in Hc. eapply upto_sub; eauto. }
@@ -106,15 +99,16 @@ Proof.
              | Some p => mem p (m_chain m) && negb (mem p (upto prev (m_chain m)))
              | None => false end) = false -> conf (revert n prev) s).
   { intros t s Hs (b & Hb & Hc) Hf. rewrite (vs_PRF _ _ HS), Hs in Hf. cbn [oproof] in Hf. rewrite Hb in Hf.
-    rewrite (vu_chain _ _ _ HU) in Hf. apply mem_elem in Hc. rewrite Hc in Hf. cbn [andb] in Hf.
+    rewrite (vu_chain _ _ HU) in Hf. apply mem_elem in Hc. rewrite Hc in Hf. cbn [andb] in Hf.
     apply negb_false_iff, mem_elem in Hf. exists b. split; [exact Hb|exact Hf]. }
   split.
   - eapply InvS_frame; [exact HS|reflexivity| |repeat split].
     intros b Hb. apply Hch0. cbn [chain revert] in Hb. eapply upto_sub; eauto.
   - destruct HU as [Uclock Usync Uchain Udelay UR UpoolT UpoolS UL UUS USU USEEN USAFE1 USAFE2 USAFE3 UVCH UVCH2 UVNOW
-                     UVPER UUUNS UCONF URS UHELD ULIMBO].
+                     UVPER UUUNS UCONF UHELD UBODY ULND].
     split; cbn [revert revert_ms mp unconf states chain insync now delay m_pool m_delivered m_live m_seen m_vouched
-                m_conflicted m_unsafe m_safe m_local m_clock m_insync m_chain m_vnow m_vpersist m_proofs]; try assumption.
+                m_conflicted m_unsafe m_safe m_local m_clock m_insync m_chain m_vnow m_vpersist m_proofs m_body];
+      try assumption.
     + reflexivity.
     + rewrite Uchain. reflexivity.
     + intros t Ht. destruct (UUS t Ht) as (s & Hs & Hc). exists s. split; [exact Hs|]. intros Hc'. apply Hc, Hsub, Hc'.
@@ -124,12 +118,6 @@ Proof.
     + intros t Hin. apply elem_of_list_filter in Hin. destruct Hin as [Hf Hin].
       destruct (UVPER t Hin) as [H|(s & Hs & H)]; [auto|].
       right. exists s. split; [exact Hs|]. eapply Hkeep; eauto.
-    + intros t Hin. apply (proj1 (confirmed_iff (revert n prev) t)), HRs, Hin.
-    + intros t b s Hin Hs Hc. eapply UHELD; eauto.
-    + intros t b s Hin Hs Hc. destruct (conf_dec n s) as [Hcn|Hcn]; [|eapply ULIMBO; eauto].
-      exfalso. apply Hc. pose proof (UHELD t b s Hin Hs Hcn) as HR. apply HRs in HR.
-      apply (proj1 (confirmed_iff (revert n prev) t)) in HR.
-      destruct HR as (s' & Hs' & Hc'). cbn [states revert] in Hs'. congruence.
 Qed.
 
 (* ---------------------------------------------------------------------------------------- *)
@@ -144,18 +132,16 @@ Qed.
 
 (* ---------------------------------------------------------------------------------------- *)
 (* a block that is accepted *)
-Lemma block_accept Rs n m o b prev txs valid :
-  Inv Rs n m ->
+Lemma block_accept n m o b prev txs valid :
+  Inv n m ->
   o = OBlock b prev txs valid \/ o = OReorg b prev txs valid -> o ∈ all ->
   accepts n b prev valid = true ->
   (forall t, t ∈ txids txs -> confirmed n t = false) ->
   let r := process_block n b prev txs valid in
-  (forall evs, snd r = OK :: enc_events evs ->
-     forall x s' so, ETx x s' ∈ evs -> states n !! x = Some so -> s_unsafe so = true -> s_safe s' = false) ->
   exists evs m1, snd r = OK :: enc_events evs /\ first_bad dl m o (map ev_of evs) = 0 /\
-                 block_step m b txs (map ev_of evs) = (0, m1) /\ Inv Rs (fst r) (notes m1 evs).
+                 block_step m b txs (map ev_of evs) = (0, m1) /\ Inv (fst r) (notes m1 evs).
 Proof.
-  intros [HS HU] Hoo Ho Hacc H1 r Hok. subst r.
+  intros [HS HU] Hoo Ho Hacc H1 r. subst r.
   assert (Hbo : blk_of o = Some (b, prev, txs, valid)) by (destruct Hoo as [-> | ->]; reflexivity).
   assert (Hinfo : forall t, op_tx_info o t = op_tx_info (OBlock b prev txs valid) t)
     by (destruct Hoo as [-> | ->]; reflexivity).
@@ -165,9 +151,9 @@ Proof.
   pose proof (vs_chain0 _ _ HS) as Hch0.
   unfold accepts in Hacc. rewrite !andb_true_iff in Hacc. destruct Hacc as [[Eic Epr] Evalid].
   apply negb_true_iff in Eic.
-  revert Hok. unfold process_block. rewrite Eic, Epr, Evalid. cbn [negb]. intros Hok.
+  unfold process_block. rewrite Eic, Epr, Evalid. cbn [negb].
   assert (Hnb : b ∉ chain n) by (apply mem_false; exact Eic).
-  cbv zeta in Hok |- *.
+  cbv zeta.
   set (n0 := Node (mp n) (unconf n) (states n) (blocktxs n) (chain n ++ [b]) (insync n) (now n) (delay n)) in *.
   set (h := zlen (chain n0) - 1) in *.
   set (unc := sorted_keys (unconf n0)) in *.
@@ -185,7 +171,7 @@ Proof.
   assert (Hunc_elem : forall x, x ∈ unc <-> is_Some (unconf n !! x)).
   { intros x. apply sorted_keys_elem. }
   assert (Hcons : forall t body rel b', (t, body, rel) ∈ txs -> (t, b') ∈ m_pool m -> b' = body).
-  { intros t body rel b' Hin Hb'. destruct (vu_poolT _ _ _ HU t b' Hb') as (rel' & HT').
+  { intros t body rel b' Hin Hb'. destruct (vu_poolT _ _ HU t b' Hb') as (rel' & HT').
     destruct (T_body _ _ _ _ _ HT' (Hblk _ _ _ Hin)) as [-> _]. reflexivity. }
   assert (Hvnt : forall c, c ∈ blk_victims (m_pool m) txs -> c ∉ txids txs).
   { intros c Hc Hct. apply blk_victims_elem in Hc. destruct Hc as (x & Hx & Hne & bc & Hbc & Hsh).
@@ -197,16 +183,16 @@ Proof.
             limbo m t = true /\ held (m_pool m) t = false).
   { intros t s Ht Hnu Hs. pose proof (Hnc t s Ht Hs) as Hncf.
     assert (Hnl : mem t (m_live m) = false).
-    { apply mem_false. intros Hin. apply (vu_L _ _ _ HU) in Hin. apply Hnu, Hunc_elem, Hin. }
+    { apply mem_false. intros Hin. apply (vu_L _ _ HU) in Hin. apply Hnu, Hunc_elem, Hin. }
     split.
     - unfold limbo. rewrite Hnl, (vs_PRF _ _ HS), Hs. cbn [negb andb oproof].
       destruct (s_proof s) as [b'|] eqn:Ep.
-      + apply negb_true_iff, mem_false. rewrite (vu_chain _ _ _ HU). intros Hb. apply Hncf. exists b'. auto.
+      + apply negb_true_iff, mem_false. rewrite (vu_chain _ _ HU). intros Hb. apply Hncf. exists b'. auto.
       + destruct Hnu. apply Hunc_elem. eapply vu_SU; eauto.
-    - apply held_false. intros b' Hb'. apply Hnu, Hunc_elem. eapply vu_LIMBO; eauto. }
+    - apply held_false. intros b' Hb'. apply Hnu, Hunc_elem. eapply vu_HELD; eauto. }
   destruct (block_txs_spec (fun b' => b' = b) (states n) h txs n0 unc [] [EHeaders h b] (m_pool m)) as
     (n1 & unc1 & pend & evs1 & Hbt & Hun1 & Hmisc1 & HR1 & HE1 & Hst1 & Hst1' & Hunc1 & Hev1a & Hev1b & Hndp & Hp1 & Hp2).
-  { exact (vu_R _ _ _ HU). }
+  { exact (vu_R _ _ HU). }
   { exact Hcons. }
   { exact Hvnt. }
   { exact Hndt. }
@@ -217,14 +203,14 @@ Proof.
     - apply (Hlimbo t s Htt Hnu Es).
     - apply held_false. intros b' Hb'.
       assert (Hrel : relT t) by (exists body; apply Hblk; exact Hin).
-      destruct (vu_poolS _ _ _ HU t b' Hb' Hrel) as (s & Hs). congruence. }
-  { intros c Hc. apply Hunc_elem in Hc. destruct (vu_US _ _ _ HU c Hc) as (s & Hs & _). cbn. eauto. }
+      destruct (vu_poolS _ _ HU t b' Hb' Hrel) as (s & Hs). congruence. }
+  { intros c Hc. apply Hunc_elem in Hc. destruct (vu_US _ _ HU c Hc) as (s & Hs & _). cbn. eauto. }
   { intros c bc _. cbn. apply not_elem_of_nil. }
   { apply Ext_hdr. }
   change ([] ++ pend) with pend in Hbt.
-  pose proof (block_txs_trusted h txs n0 unc [] [EHeaders h b] (m_pool m) _ (vu_R _ _ _ HU) Hcons Hbt) as Htrust.
+  pose proof (block_txs_trusted h txs n0 unc [] [EHeaders h b] (m_pool m) _ (vu_R _ _ HU) Hcons Hbt) as Htrust.
   cbn [fst mp] in Htrust.
-  rewrite Hbt in Hok |- *.
+  rewrite Hbt.
   destruct (block_notify_spec (fun b' => b' = b) (states n) b eq_refl pend Hndp n1 ([EHeaders h b] ++ evs1)) as
     (n2 & evs2 & Hbn & Hmp2 & Hun2 & Hmisc2 & HE2 & Hev2a & Hev2b).
   { intros t body nw sf Hin. destruct (Hp1 t body nw sf Hin) as (rel & Hin' & Hc).
@@ -234,15 +220,14 @@ Proof.
       exact (Hvnt t Hv' Htt). }
     split; [rewrite tkeys_app, not_elem_of_app; split; [cbn; apply not_elem_of_nil|exact Hnk]|].
     destruct nw; [exact I|].
-    apply Hst1. cbn. apply Hunc_elem in Hc. destruct (vu_US _ _ _ HU t Hc) as (s & Hs & _). eauto. }
+    apply Hst1. cbn. apply Hunc_elem in Hc. destruct (vu_US _ _ HU t Hc) as (s & Hs & _). eauto. }
   { exact HE1. }
-  rewrite Hbn in Hok |- *. cbn [fst snd] in Hok |- *.
-  rewrite <- app_assoc in HE2, Hok |- *.
+  rewrite Hbn. cbn [fst snd].
+  rewrite <- app_assoc in HE2 |- *.
   set (E := evs1 ++ evs2) in *.
   change ([EHeaders h b] ++ E) with (EHeaders h b :: E) in *.
   set (A := EHeaders h b :: E) in *.
   set (nf := set_unconf n2 (restrict_unconf (unconf n2) unc1)).
-  specialize (Hok A eq_refl).
   exists A.
   assert (HEv : forall x s, tev_in A x s <-> tev_in E x s).
   { intros x s. unfold tev_in, A. rewrite !elem_of_cons.
@@ -270,7 +255,7 @@ Proof.
     split; [|auto 10].
     intros (b' & Hb' & Hc). rewrite Hchf in Hc. apply elem_of_app in Hc. rewrite Hp in Hb'.
     destruct Hc as [Hc|Hc].
-    - apply Hunc_elem in K2. destruct (vu_US _ _ _ HU x K2) as (so' & Hso' & Hp').
+    - apply Hunc_elem in K2. destruct (vu_US _ _ HU x K2) as (so' & Hso' & Hp').
       assert (so' = so) by congruence. subst so'. apply Hp'. exists b'. auto.
     - apply elem_of_list_singleton in Hc. subst b'. apply Hnt. eapply Hpb; eauto. }
   (* notifications with the proof *)
@@ -278,7 +263,8 @@ Proof.
             s_proof s = Some b /\ conf nf s /\ s_depth s = 0 /\ x ∈ txids txs /\
             exists body nw sf, (x, body, nw, sf) ∈ pend /\
               (if nw : bool then ETx x s ∈ evs2 /\ outs_ok body (s_outs s) = true /\ (x, body, true) ∈ txs /\ x ∉ unc /\
-                                s_unsafe s = negb (s_safe s) /\ s_cancel s = false
+                                s_unsafe s = negb (s_safe s) /\ s_cancel s = false /\ s_body s = body /\
+                                (forall so, states n !! x = Some so -> s_unsafe so = true -> s_unsafe s = true)
                else EUpdate x s ∈ evs2 /\ x ∈ unc)).
   { intros x s H. destruct (Hev2a x s H) as (body & nw & sf & Hin & Hp & Hd & Hk).
     destruct (Hp1 x body nw sf Hin) as (rel & Hin' & Hc).
@@ -286,7 +272,14 @@ Proof.
     split; [exact Hd|].
     split; [apply txids_elem; eauto|]. exists body, nw, sf. split; [exact Hin|].
     destruct nw.
-    - destruct Hk as (Hk1 & Hk2 & Hk3 & Hk4). destruct Hc as [-> Hc]. auto 10.
+    - destruct Hk as (Hk1 & Hk2 & Hk3 & Hk4 & Hk5 & Hk6). destruct Hc as [-> Hc].
+      split; [exact Hk1|]. split; [exact Hk2|]. split; [exact Hin'|]. split; [exact Hc|]. split; [exact Hk3|].
+      split; [exact Hk4|]. split; [exact Hk5|].
+      intros so Hso Hu. rewrite Hk3. apply negb_true_iff. apply (Hk6 so); [|rewrite Hu; reflexivity].
+      rewrite (x_out _ _ _ _ HE1 x); [exact Hso|].
+      rewrite tkeys_app, not_elem_of_app. split; [cbn; apply not_elem_of_nil|].
+      intros Hk. apply tkeys_elem in Hk. destruct Hk as (s' & Hk). destruct (Hev1a x s' Hk) as (Hv' & _).
+      apply (Hvnt x Hv'). apply txids_elem. eauto.
     - auto. }
   assert (Hcnf : forall x s, tev_in A x s -> cnf (chain nf) s = true <-> tev_in evs2 x s).
   { intros x s H. rewrite (cnf_conf nf s Hch0f). destruct (Hall x s H) as [H'|H'].
@@ -296,20 +289,20 @@ Proof.
     - split; [auto|]. intros _. apply (Hnot x s H'). }
   assert (HETx : forall t s, ETx t s ∈ A ->
             tev_in evs2 t s /\ exists body, (t, body, true) ∈ txs /\ t ∉ unc /\ outs_ok body (s_outs s) = true /\
-            s_unsafe s = negb (s_safe s) /\ s_cancel s = false).
+            s_unsafe s = negb (s_safe s) /\ s_cancel s = false /\ s_body s = body /\
+            (forall so, states n !! t = Some so -> s_unsafe so = true -> s_unsafe s = true)).
   { intros t s H. destruct (Hall t s (or_introl H)) as [H'|H'].
     - destruct (Hcan t s H') as (_ & _ & _ & _ & _ & _ & _ & Hup). exfalso.
       eapply (Ext_no_both _ _ _ _ t s s HE2); [exact H|apply HE1in, Hup].
     - split; [exact H'|]. destruct (Hnot t s H') as (_ & _ & _ & _ & body & nw & sf & Hpin & Hk). destruct nw.
-      + destruct Hk as (_ & K1 & K2 & K3 & K4 & K5). eauto 10.
+      + destruct Hk as (_ & K1 & K2 & K3 & K4 & K5 & K6 & K7). exists body. auto 10.
       + destruct Hk as [Hk _]. exfalso. eapply (Ext_no_both _ _ _ _ t s s HE2); [exact H|apply HE2in, Hk]. }
   assert (Hmono : forall t s so, ETx t s ∈ A -> states n !! t = Some so -> s_unsafe so = true -> s_unsafe s = true).
-  { intros t s so H Hso Hu. destruct (HETx t s H) as (_ & body & _ & _ & _ & Hus & _).
-    rewrite Hus, (Hok t s so H Hso Hu). reflexivity. }
+  { intros t s so H Hso Hu. destruct (HETx t s H) as (_ & body & _ & _ & _ & _ & _ & _ & Hm). apply (Hm so Hso Hu). }
   (* the checks on the notifications *)
   assert (Hbad : first_bad dl m o (map ev_of A) = 0).
   { apply (gen_checks (fun b' => b' = b) n m (states n2)); [exact HS|exact HE2| |].
-    - intros t s H. destruct (HETx t s H) as (_ & body & Htx & Hnu & Hok' & Hus & Hcs).
+    - intros t s H. destruct (HETx t s H) as (_ & body & Htx & Hnu & Hok' & Hus & Hcs & Hbd & _).
       exists body. rewrite Hinfo. cbn [op_tx_info]. rewrite (find_tx txs t body true Hndt Htx).
       split; [reflexivity|]. split; [exact Hok'|]. split.
       { unfold flags. rewrite Hus, Hcs. split; [destruct (s_safe s); reflexivity|discriminate]. }
@@ -323,11 +316,11 @@ Proof.
         cbn [ev_of e_proof] in Hun. rewrite Hp in Hun. cbn [pz] in Hun. rewrite Z.eqb_refl, andb_false_r in Hun.
         discriminate. }
   assert (Hh : h = zlen (m_chain m)).
-  { rewrite (vu_chain _ _ _ HU). subst h n0. cbn [chain]. unfold zlen. rewrite app_length. cbn [length]. lia. }
+  { rewrite (vu_chain _ _ HU). subst h n0. cbn [chain]. unfold zlen. rewrite app_length. cbn [length]. lia. }
   destruct (block_step_ok m b txs (ev_of (EHeaders h b)) (map ev_of E)) as (cf' & Hbs & Hcf).
   { cbn [ev_of e_kind e_t e_proof]. rewrite <- Hh, !Z.eqb_refl. reflexivity. }
   { intros c Hc Hl. change (ev_of (EHeaders h b) :: map ev_of E) with (map ev_of A).
-    apply (vu_L _ _ _ HU) in Hl. apply Hunc_elem in Hl. destruct (Hev1b c Hc Hl) as (s & Hs).
+    apply (vu_L _ _ HU) in Hl. apply Hunc_elem in Hl. destruct (Hev1b c Hc Hl) as (s & Hs).
     destruct (Hcan c s (or_intror Hs)) as (_ & _ & Hu & Hcc & _).
     apply (count_cancel_one c s); [exact (x_nodup _ _ _ _ HE2)|apply HE1in, Hs|exact Hcc|exact Hu]. }
   { intros t body rel Hin ->. change (ev_of (EHeaders h b) :: map ev_of E) with (map ev_of A).
@@ -335,10 +328,10 @@ Proof.
     pose proof (Hp2 t body true Hin) as Hp. destruct (bool_decide (t ∈ unc)) eqn:Eb.
     - apply bool_decide_eq_true in Eb.
       assert (Hd : mem t (m_delivered m) = true).
-      { apply mem_elem, (vs_D _ _ HS). apply Hunc_elem in Eb. destruct (vu_US _ _ _ HU t Eb) as (s & Hs & _). eauto. }
+      { apply mem_elem, (vs_D _ _ HS). apply Hunc_elem in Eb. destruct (vu_US _ _ HU t Eb) as (s & Hs & _). eauto. }
       assert (Hl : limbo m t = false).
       { unfold limbo. replace (mem t (m_live m)) with true; [reflexivity|]. symmetry.
-        apply mem_elem, (vu_L _ _ _ HU), Hunc_elem, Eb. }
+        apply mem_elem, (vu_L _ _ HU), Hunc_elem, Eb. }
       rewrite Hd, Hl. cbn [negb andb]. destruct (Hev2b t body false true Hp) as (s & Hps & Hds & Hk).
       apply has_ev_map. exists (EUpdate t s). split; [apply HE2in, Hk|].
       cbn [ev_of e_kind e_t e_proof e_depth]. rewrite Hps, Hds. cbn [pz]. rewrite !Z.eqb_refl. reflexivity.
@@ -353,9 +346,9 @@ Proof.
   change (ev_of (EHeaders h b) :: map ev_of E) with (map ev_of A) in Hbs.
   eexists. split; [reflexivity|]. split; [exact Hbad|]. split; [exact Hbs|].
   match type of Hbs with _ = (_, ?mm) => set (m1 := mm) end.
-  destruct (notes_frame m1 A) as (N1 & N2 & N3 & N4 & N5 & N6 & N7 & N8 & N9). cbv zeta in *.
+  destruct (notes_frame m1 A) as (N1 & N2 & N3 & N4 & N5 & N6 & N7 & N8 & N9 & N10). cbv zeta in *.
   assert (Hm1c : m_chain m1 = chain nf).
-  { unfold m1. cbn [m_chain]. rewrite (vu_chain _ _ _ HU), Hchf. reflexivity. }
+  { unfold m1. cbn [m_chain]. rewrite (vu_chain _ _ HU), Hchf. reflexivity. }
   assert (Hnd : NoDup (tkeys A)) by apply (x_nodup _ _ _ _ HE2).
   assert (Hunf : forall x u, unconf nf !! x = Some u <-> unconf n !! x = Some u /\ x ∉ txids txs).
   { intros x u. subst nf. cbn [unconf set_unconf]. rewrite restrict_lookup, Hun2, Hun1, Hunc1, Hunc_elem.
@@ -391,17 +384,13 @@ Proof.
     - destruct (Hp eq_refl) as (sf & Hsf). destruct (Hev2b _ _ _ _ Hsf) as (s & Hps & _ & Hk). exists s.
       split; [apply (x_in _ _ _ _ HE2); left; apply HE2in, Hk|apply (Hnot x s (or_introl Hk))]. }
   assert (Hvic : forall x, x ∈ blk_victims (m_pool m) txs -> relT x ->
-            exists s, states nf !! x = Some s /\ (s_unsafe s = true \/ (conf nf s /\ x ∈ Rs))).
+            exists s, states nf !! x = Some s /\ s_unsafe s = true).
   { intros x Hx Hrel. pose proof Hx as Hx'. apply blk_victims_elem in Hx'.
     destruct Hx' as (y & _ & _ & bc & Hbc & _).
-    destruct (vu_poolS _ _ _ HU x bc Hbc Hrel) as (so & Hso).
-    destruct (decide (x ∈ unc)) as [Hu|Hu].
-    - destruct (Hev1b x Hx Hu) as (s & Hs). destruct (Hcan x s (or_intror Hs)) as (_ & _ & Hus & _).
-      exists s. split; [apply (x_in _ _ _ _ HE2); right; apply HE1in, Hs|left; exact Hus].
-    - destruct (Hstick x so Hso) as (s' & Hs' & _ & K2). exists s'. split; [exact Hs'|]. right.
-      destruct (conf_dec n so) as [Hc|Hc].
-      + split; [apply K2, Hc|eapply vu_HELD; eauto].
-      + destruct Hu. apply Hunc_elem. eapply vu_LIMBO; eauto. }
+    destruct (vu_poolS _ _ HU x bc Hbc Hrel) as (so & Hso).
+    assert (Hu : x ∈ unc) by (apply Hunc_elem; eapply vu_HELD; eauto).
+    destruct (Hev1b x Hx Hu) as (s & Hs). destruct (Hcan x s (or_intror Hs)) as (_ & _ & Hus & _).
+    exists s. split; [apply (x_in _ _ _ _ HE2); right; apply HE1in, Hs|exact Hus]. }
   assert (Hkeep : forall x u, unconf n !! x = Some u -> u_trusted u = true ->
             (exists u2, unconf nf !! x = Some u2 /\ u_trusted u2 = true) \/
             (exists s, states nf !! x = Some s /\ conf nf s)).
@@ -415,28 +404,28 @@ Proof.
   split.
   - apply (gen_states (fun b' => b' = b) n m nf m1 A HS); [repeat split|exact HE2|exact Hch0f| | |].
     + intros b' ->. lia.
-    + intros t s H. destruct (HETx t s H) as (_ & body & Htx & Hnu & Hok' & Hus & Hcs).
+    + intros t s H. destruct (HETx t s H) as (_ & body & Htx & Hnu & Hok' & Hus & Hcs & Hbd & _).
       split; [exists body; apply Hblk; exact Htx|]. split.
       { unfold flags. rewrite Hus, Hcs. split; [destruct (s_safe s); reflexivity|discriminate]. }
       split.
-      * intros body' rel' HT'. destruct (T_body _ _ _ _ _ HT' (Hblk _ _ _ Htx)) as [-> _]. exact Hok'.
+      * intros body' rel' HT'. destruct (T_body _ _ _ _ _ HT' (Hblk _ _ _ Htx)) as [-> _]. split; [exact Hok'|exact Hbd].
       * intros so Hso. apply (Hmono t s so H Hso).
     + intros t s b' H Hp ->. apply Hinb. destruct (Hall t s H) as [H'|H'].
       * exfalso. destruct (Hcan t s H') as (Hn & _). apply Hn. exists b. split; [exact Hp|].
         rewrite Hchf. apply elem_of_app. right. left.
       * apply (Hnot t s H').
   - split.
-    + rewrite N5. subst nf. cbn [now set_unconf]. rewrite Hnow2, Hnow1. apply (vu_clock _ _ _ HU).
-    + rewrite N6. subst nf. cbn [insync set_unconf]. rewrite Hsy2, Hsy1. apply (vu_sync _ _ _ HU).
+    + rewrite N5. subst nf. cbn [now set_unconf]. rewrite Hnow2, Hnow1. apply (vu_clock _ _ HU).
+    + rewrite N6. subst nf. cbn [insync set_unconf]. rewrite Hsy2, Hsy1. apply (vu_sync _ _ HU).
     + rewrite N7. exact Hm1c.
-    + subst nf. cbn [delay set_unconf]. rewrite Hdl2, Hdl1. apply (vu_delay _ _ _ HU).
+    + subst nf. cbn [delay set_unconf]. rewrite Hdl2, Hdl1. apply (vu_delay _ _ HU).
     + rewrite N1. subst nf. cbn [mp set_unconf]. rewrite Hmp2. exact HR1.
-    + rewrite N1. intros x bx Hin. apply (vu_poolT _ _ _ HU). eapply blk_pool_sub. exact Hin.
+    + rewrite N1. intros x bx Hin. apply (vu_poolT _ _ HU). eapply blk_pool_sub. exact Hin.
     + rewrite N1. intros x bx Hin Hrel. apply (Ext_some _ _ _ _ x HE2). eapply vu_poolS; [exact HU| |exact Hrel].
       eapply blk_pool_sub. exact Hin.
     + intros x. rewrite (notes_live_rem m1 A x).
       2:{ intros y s H. rewrite Hm1c. apply (Hcnf y s (or_introl H)). apply (HETx y s H). }
-      change (m_live m1) with (m_live m). rewrite (vu_L _ _ _ HU). split.
+      change (m_live m1) with (m_live m). rewrite (vu_L _ _ HU). split.
       * intros [(u & Hu) Hno]. exists u. apply Hunf. split; [exact Hu|]. intros Hx.
         destruct (Hpend_upd x Hx) as (s & Hs & Hps); [apply Hunc_elem; eauto|].
         apply Hno. exists s. split; [right; apply HE2in, Hs|]. rewrite Hm1c.
@@ -445,7 +434,7 @@ Proof.
         intros (s & Hs & Hus). rewrite Hm1c in Hus. apply (Hcnf x s Hs) in Hus.
         destruct (Hnot x s Hus) as (_ & _ & _ & Hx' & _). contradiction.
     + intros x (u & Hu). apply Hunf in Hu. destruct Hu as [Hu Hx].
-      destruct (vu_US _ _ _ HU x) as (so & Hso & Hpo); [eauto|].
+      destruct (vu_US _ _ HU x) as (so & Hso & Hpo); [eauto|].
       destruct (Hstick x so Hso) as (s & Hs & _). exists s. split; [exact Hs|].
       destruct (Ext_back _ _ _ _ x s HE2 Hs) as [H|[_ H]].
       * destruct (Hall x s H) as [H'|H'].
@@ -459,7 +448,7 @@ Proof.
         -- destruct (Hcan x s H') as (_ & _ & _ & _ & _ & Hu & Hx & _).
            apply Hunc_elem in Hu. destruct Hu as (u & Hu). exists u. apply Hunf. auto.
         -- destruct (Hnot x s H') as (Hps & _). congruence.
-      * destruct (vu_SU _ _ _ HU x s H Hp) as (u & Hu). exists u. apply Hunf. split; [exact Hu|].
+      * destruct (vu_SU _ _ HU x s H Hp) as (u & Hu). exists u. apply Hunf. split; [exact Hu|].
         intros Hx. destruct (Hpend_upd x Hx) as (s' & Hs' & _); [apply Hunc_elem; eauto|].
         apply Hk, tkeys_elem. exists s'. right. apply HE2in, Hs'.
     + intros x u Hu. apply Hunf in Hu. destruct Hu as [Hu Hx].
@@ -472,7 +461,7 @@ Proof.
       * destruct (Hcan x s H') as (_ & Hns & _). congruence.
       * destruct (Hnot x s H') as (_ & _ & _ & Hx' & _). contradiction.
     + intros x u Hu Hsafe. apply Hunf in Hu. destruct Hu as [Hu Hx].
-      destruct (vu_SAFE2 _ _ _ HU x u Hu Hsafe) as [H|H];
+      destruct (vu_SAFE2 _ _ HU x u Hu Hsafe) as [H|H];
         [left; apply Hsafe_keep; assumption|right; apply notes_unsafe_mono, H].
     + intros x u s Hu Hs Hsafe. apply Hunf in Hu. destruct Hu as [Hu Hx].
       apply Hsafe_keep; [|exact Hx].
@@ -482,11 +471,11 @@ Proof.
         -- destruct (Hnot x s H') as (_ & _ & _ & Hx' & _). contradiction.
       * eapply vu_SAFE3; eauto.
     + rewrite N2. intros x u Hu Htr. apply Hunf in Hu. destruct Hu as [Hu Hx].
-      apply (vu_VCH _ _ _ HU x u Hu Htr).
-    + rewrite N2. intros x H. apply (vu_VCH2 _ _ _ HU). subst nf. cbn [mp set_unconf] in H. rewrite Hmp2 in H.
+      apply (vu_VCH _ _ HU x u Hu Htr).
+    + rewrite N2. intros x H. apply (vu_VCH2 _ _ HU). subst nf. cbn [mp set_unconf] in H. rewrite Hmp2 in H.
       apply (Htrust x), H.
     + rewrite N8. intros x Hin.
-      destruct (vu_VNOW _ _ _ HU x Hin) as [H|[(u & Hu & H)|[(s & Hs & H)|H]]].
+      destruct (vu_VNOW _ _ HU x Hin) as [H|[(u & Hu & H)|[(s & Hs & H)|H]]].
       * destruct (proj2 (Htrust x) H) as [K|[K|K]].
         -- left. subst nf. cbn [mp set_unconf]. rewrite Hmp2. exact K.
         -- pose proof K as K'. apply txids_elem in K'. destruct K' as (body & rel & Hbin). destruct rel.
@@ -495,9 +484,9 @@ Proof.
            ++ right. right. right. intros (body' & Hb'). destruct (T_body _ _ _ _ _ Hb' (Hblk _ _ _ Hbin)) as [_ Hc].
               discriminate.
         -- pose proof K as K'. apply blk_victims_elem in K'. destruct K' as (y & _ & _ & bc & Hbc & _).
-           destruct (vu_poolT _ _ _ HU x bc Hbc) as (rel & HTx). destruct rel.
+           destruct (vu_poolT _ _ HU x bc Hbc) as (rel & HTx). destruct rel.
            ++ right. right. left. destruct (Hvic x K) as (s & Hs & Hd); [exists bc; exact HTx|].
-              exists s. split; [exact Hs|]. destruct Hd as [Hd|[Hd _]]; auto.
+              exists s. split; [exact Hs|]. auto.
            ++ right. right. right. intros (body' & Hb'). destruct (T_body _ _ _ _ _ Hb' HTx) as [_ Hc].
               discriminate.
       * destruct (Hkeep x u Hu H) as [K|(s & Hs & Hps)]; [right; left; exact K|].
@@ -505,82 +494,60 @@ Proof.
       * right. right. left. destruct (Hstick x s Hs) as (s' & Hs' & K1 & K2).
         exists s'. split; [exact Hs'|]. destruct H; auto.
       * right. right. right. exact H.
-    + rewrite N9. intros x Hin. destruct (vu_VPER _ _ _ HU x Hin) as [(u & Hu & H)|(s & Hs & H)].
+    + rewrite N9. intros x Hin. destruct (vu_VPER _ _ HU x Hin) as [(u & Hu & H)|(s & Hs & H)].
       * apply (Hkeep x u Hu H).
       * right. destruct (Hstick x s Hs) as (s' & Hs' & K1 & K2). eauto.
     + intros x u Hu Hun. apply Hunf in Hu. destruct Hu as [Hu Hx].
-      apply notes_unsafe_mono. apply (vu_UUNS _ _ _ HU x u Hu Hun).
+      apply notes_unsafe_mono. apply (vu_UUNS _ _ HU x u Hu Hun).
     + rewrite N3. intros x Hin Hrel. unfold m1 in Hin. cbn [m_conflicted] in Hin. apply Hcf in Hin.
-      destruct Hin as [Hin|Hin].
-      * destruct (vu_CONF _ _ _ HU x Hin Hrel) as (s & Hs & H).
-        destruct (Hstick x s Hs) as (s' & Hs' & K1 & K2). exists s'. split; [exact Hs'|]. destruct H; auto.
-      * destruct (Hvic x Hin Hrel) as (s & Hs & Hd). exists s. split; [exact Hs|]. destruct Hd as [Hd|[_ Hd]]; auto.
-    + intros x Hin. destruct (vu_RS _ _ _ HU x Hin) as (s & Hs & Hc).
-      destruct (Hstick x s Hs) as (s' & Hs' & _ & K2). eauto.
-    + rewrite N1. intros x bx s Hin Hs Hc.
+      destruct Hin as [Hin|Hin]; [|apply Hvic; assumption].
+      destruct (vu_CONF _ _ HU x Hin Hrel) as (s & Hs & H).
+      destruct (Hstick x s Hs) as (s' & Hs' & K1 & K2). exists s'. split; [exact Hs'|]. auto.
+    + rewrite N1. intros x bx s Hin Hs.
       pose proof (blk_pool_not_tx _ _ _ Hin) as Hx. cbn [fst] in Hx.
       pose proof (blk_pool_elem_not_victim _ _ _ Hin) as Hxv. cbn [fst] in Hxv.
       assert (Hs0 : states n !! x = Some s).
       { apply (Hsame x s Hs Hx). intros s' H'. destruct (Hcan x s' H') as (_ & _ & _ & _ & Hv' & _). contradiction. }
-      apply (vu_HELD _ _ _ HU x bx s (blk_pool_sub _ _ _ Hin) Hs0).
-      destruct Hc as (b' & Hb' & Hcc). rewrite Hchf in Hcc. apply elem_of_app in Hcc.
-      destruct Hcc as [Hcc|Hcc]; [exists b'; auto|]. apply elem_of_list_singleton in Hcc. subst b'.
-      destruct Hx. eapply Hpb; eauto.
-    + rewrite N1. intros x bx s Hin Hs Hc.
-      pose proof (blk_pool_not_tx _ _ _ Hin) as Hx. cbn [fst] in Hx.
-      pose proof (blk_pool_elem_not_victim _ _ _ Hin) as Hxv. cbn [fst] in Hxv.
-      assert (Hs0 : states n !! x = Some s).
-      { apply (Hsame x s Hs Hx). intros s' H'. destruct (Hcan x s' H') as (_ & _ & _ & _ & Hv' & _). contradiction. }
-      destruct (vu_LIMBO _ _ _ HU x bx s (blk_pool_sub _ _ _ Hin) Hs0) as (u & Hu).
-      { intros Hc'. apply Hc, Hconfmono, Hc'. }
+      destruct (vu_HELD _ _ HU x bx s (blk_pool_sub _ _ _ Hin) Hs0) as (u & Hu).
       exists u. apply Hunf. auto.
+    + intros x u Hu. apply Hunf in Hu. destruct Hu as [Hu Hx].
+      destruct (vu_BODY _ _ HU x u Hu) as (so & Hso & Hb).
+      destruct (Hstick x so Hso) as (s & Hs & _). exists s. split; [exact Hs|].
+      unfold lookup_body. rewrite N10. change (m_body m1) with (m_body m). fold (lookup_body m x). rewrite Hb. f_equal.
+      destruct (Ext_back _ _ _ _ x s HE2 Hs) as [[H|H]|[_ H]].
+      * destruct (HETx x s H) as (_ & body & Htx & _). destruct Hx. apply txids_elem. eauto.
+      * destruct (x_upd _ _ _ _ HE2 x s H) as (so' & Hso' & _ & _ & _ & _ & _ & Kb). congruence.
+      * congruence.
+    + apply notes_live_NoDup. exact (vu_LND _ _ HU).
 Qed.
 
 (* ---------------------------------------------------------------------------------------- *)
 (* what the hypothesis on the history says about a block / reorg step *)
-Lemma ok_events n Rs o evs :
-  op_ok n Rs o = true -> step_events o (snd (step n o)) = map ev_of evs ->
-  forall x s' so, ETx x s' ∈ evs -> states n !! x = Some so -> s_unsafe so = true -> s_safe s' = false.
+Lemma ok_block n o n' b prev txs valid :
+  op_ok n o = true -> header_node n o = Some n' -> blk_of o = Some (b, prev, txs, valid) ->
+  accepts n' b prev valid = true -> forall t, t ∈ txids txs -> confirmed n' t = false.
 Proof.
-  intros Hok Hev x s' so Hin Hso Hu. unfold op_ok in Hok. apply andb_true_iff in Hok. destruct Hok as [Hok _].
-  rewrite Hev in Hok. rewrite forallb_elem in Hok.
-  assert (Hin' : ev_of (ETx x s') ∈ map ev_of evs) by (apply elem_of_list_fmap; eauto).
-  specialize (Hok _ Hin'). cbn [ev_of e_kind e_t e_safe Z.eqb Pos.eqb] in Hok. rewrite Hso in Hok.
-  cbv beta iota in Hok. rewrite Hu in Hok. cbn [andb negb] in Hok.
-  destruct (s_safe s'); [discriminate Hok|reflexivity].
-Qed.
-
-Lemma ok_block n Rs o n' b prev txs valid :
-  op_ok n Rs o = true -> header_node n o = Some n' -> blk_of o = Some (b, prev, txs, valid) ->
-  (forall t, t ∈ Rs -> confirmed n' t = true) /\
-  (accepts n' b prev valid = true -> forall t, t ∈ txids txs -> confirmed n' t = false).
-Proof.
-  intros Hok Hh Hb. unfold op_ok in Hok. apply andb_true_iff in Hok. destruct Hok as [_ Hok].
-  assert (Hok' : forallb (confirmed n') Rs &&
-                 (if accepts n' b prev valid then forallb (fun x : btx => negb (confirmed n' (fst (fst x)))) txs else true) = true).
+  intros Hok Hh Hb Ha t Ht. unfold op_ok in Hok.
+  assert (Hok' : (if accepts n' b prev valid then forallb (fun x : btx => negb (confirmed n' (fst (fst x)))) txs else true) = true).
   { destruct o; cbn in Hb; inversion Hb; subst; rewrite Hh in Hok; exact Hok. }
-  apply andb_true_iff in Hok'. destruct Hok' as [K1 K2]. split.
-  - rewrite forallb_elem in K1. exact K1.
-  - intros Ha t Ht. rewrite Ha in K2. rewrite forallb_elem in K2. apply elem_of_list_fmap in Ht.
-    destruct Ht as (x & -> & Hx). apply negb_true_iff, (K2 x Hx).
+  rewrite Ha in Hok'. rewrite forallb_elem in Hok'. apply elem_of_list_fmap in Ht.
+  destruct Ht as (x & -> & Hx). apply negb_true_iff, (Hok' x Hx).
 Qed.
 
 (* ---------------------------------------------------------------------------------------- *)
 (* a block *)
-Lemma step_block Rs n m b prev txs valid : Inv Rs n m -> OBlock b prev txs valid ∈ all ->
-  op_ok n Rs (OBlock b prev txs valid) = true ->
+Lemma step_block n m b prev txs valid : Inv n m -> OBlock b prev txs valid ∈ all ->
+  op_ok n (OBlock b prev txs valid) = true ->
   exists m', monitor_step dl m (OBlock b prev txs valid) (snd (step n (OBlock b prev txs valid))) = (0, m') /\
-             Inv Rs (fst (step n (OBlock b prev txs valid))) m'.
+             Inv (fst (step n (OBlock b prev txs valid))) m'.
 Proof.
-  intros HI Ho Hok. set (o := OBlock b prev txs valid) in *.
-  destruct (ok_block n Rs o n b prev txs valid Hok eq_refl eq_refl) as [_ H1].
-  pose proof (fun evs => ok_events n Rs o evs Hok) as Hev. subst o. cbn [step] in Hev |- *.
+  intros HI Ho Hok.
+  pose proof (ok_block n (OBlock b prev txs valid) n b prev txs valid Hok eq_refl eq_refl) as H1.
+  cbn [step].
   destruct (accepts n b prev valid) eqn:Ea.
-  - pose proof (block_accept Rs n m (OBlock b prev txs valid) b prev txs valid HI (or_introl eq_refl) Ho Ea (H1 eq_refl)) as H.
+  - pose proof (block_accept n m (OBlock b prev txs valid) b prev txs valid HI (or_introl eq_refl) Ho Ea (H1 eq_refl)) as H.
     cbv zeta in H. destruct (process_block n b prev txs valid) as [n1 ob]. cbn [fst snd] in *.
     destruct H as (evs & m1 & -> & Hbad & Hbs & HI').
-    { intros evs -> x s' so. apply (Hev evs). unfold step_events. cbn [carries_events obs_events].
-      rewrite decode_enc. reflexivity. }
     rewrite monitor_step_events by (try reflexivity; discriminate). cbv zeta. rewrite Hbad. cbn [Z.eqb negb].
     rewrite Z.eqb_refl, Hbs. fold (notes m1 evs). eexists. split; [reflexivity|exact HI'].
   - rewrite (block_refuse n b prev txs valid Ea). cbn [fst snd]. change [ERR] with (ERR :: enc_events []).
@@ -590,38 +557,35 @@ Qed.
 
 (* ---------------------------------------------------------------------------------------- *)
 (* a header through the headers handler (reorganisation), then its block *)
-Lemma step_reorg Rs n m b prev txs valid : Inv Rs n m -> OReorg b prev txs valid ∈ all ->
-  op_ok n Rs (OReorg b prev txs valid) = true ->
+Lemma step_reorg n m b prev txs valid : Inv n m -> OReorg b prev txs valid ∈ all ->
+  op_ok n (OReorg b prev txs valid) = true ->
   exists m', monitor_step dl m (OReorg b prev txs valid) (snd (step n (OReorg b prev txs valid))) = (0, m') /\
-             Inv Rs (fst (step n (OReorg b prev txs valid))) m'.
+             Inv (fst (step n (OReorg b prev txs valid))) m'.
 Proof.
   intros HI Ho Hok. set (o := OReorg b prev txs valid) in *.
-  pose proof (fun n' => ok_block n Rs o n' b prev txs valid Hok) as Hblk.
-  pose proof (fun evs => ok_events n Rs o evs Hok) as Hev.
-  pose proof (vu_chain _ _ _ (proj2 HI)) as Hmc.
+  pose proof (fun n' => ok_block n o n' b prev txs valid Hok) as Hblk.
+  pose proof (vu_chain _ _ (proj2 HI)) as Hmc.
   (* the block is processed on node n0 / bookkeeping m0 *)
-  assert (Hproc : forall n0 m0, Inv Rs n0 m0 -> states n0 = states n -> header_node n o = Some n0 ->
+  assert (Hproc : forall n0 m0, Inv n0 m0 -> header_node n o = Some n0 ->
             header_step m b prev = (m0, true) ->
             (snd (step n o) = reorg_obs (fst (process_block n0 b prev txs valid)) (snd (process_block n0 b prev txs valid))) ->
             fst (step n o) = fst (process_block n0 b prev txs valid) ->
-            exists m', monitor_step dl m o (snd (step n o)) = (0, m') /\ Inv Rs (fst (step n o)) m').
-  { intros n0 m0 HI0 Hst0 Hh Hhs Hsnd Hfst. destruct (Hblk n0 Hh eq_refl) as [_ H1].
-    rewrite Hfst. rewrite Hsnd in Hev |- *.
+            exists m', monitor_step dl m o (snd (step n o)) = (0, m') /\ Inv (fst (step n o)) m').
+  { intros n0 m0 HI0 Hh Hhs Hsnd Hfst. pose proof (Hblk n0 Hh eq_refl) as H1.
+    rewrite Hfst. rewrite Hsnd.
     destruct (accepts n0 b prev valid) eqn:Ea.
-    - pose proof (block_accept Rs n0 m0 o b prev txs valid HI0 (or_intror eq_refl) Ho Ea (H1 eq_refl)) as H.
+    - pose proof (block_accept n0 m0 o b prev txs valid HI0 (or_intror eq_refl) Ho Ea (H1 eq_refl)) as H.
       cbv zeta in H. destruct (process_block n0 b prev txs valid) as [n1 ob]. cbn [fst snd] in *.
       destruct H as (evs & m1 & -> & Hbad & Hbs & HI').
-      { intros evs -> x s' so Hin Hso Hu. rewrite Hst0 in Hso. apply (Hev evs) with (x := x) (so := so); try assumption.
-        unfold step_events, o. cbn [carries_events obs_events reorg_obs]. rewrite decode_enc. reflexivity. }
       cbn [reorg_obs]. unfold o. rewrite monitor_step_reorg, Hhs. cbv zeta. fold o. rewrite Hbad. cbn [Z.eqb negb].
       rewrite Z.eqb_refl, Hbs. fold (notes m1 evs). eexists. split; [reflexivity|exact HI'].
     - rewrite (block_refuse n0 b prev txs valid Ea). cbn [fst snd reorg_obs].
       change (@nil Z) with (enc_events []). unfold o. rewrite monitor_step_reorg, Hhs. cbn.
       exists m0. split; [reflexivity|exact HI0]. }
   (* the header is not followed *)
-  assert (Hskip : forall n1 m0, Inv Rs n1 m0 -> header_step m b prev = (m0, false) ->
+  assert (Hskip : forall n1 m0, Inv n1 m0 -> header_step m b prev = (m0, false) ->
             step n o = (n1, reorg_obs n1 [ERR]) ->
-            exists m', monitor_step dl m o (snd (step n o)) = (0, m') /\ Inv Rs (fst (step n o)) m').
+            exists m', monitor_step dl m o (snd (step n o)) = (0, m') /\ Inv (fst (step n o)) m').
   { intros n1 m0 HI1 Hhs Hst. rewrite Hst. cbn [fst snd reorg_obs]. change (@nil Z) with (enc_events []).
     unfold o. rewrite monitor_step_reorg, Hhs. cbn. exists m0. split; [reflexivity|exact HI1]. }
   unfold o in Hproc, Hskip |- *. cbn [step header_node] in Hproc, Hskip |- *.
@@ -630,14 +594,13 @@ Proof.
   destruct (b =? default (-99) (last (chain n))) eqn:E1.
   { eapply Hskip; [|reflexivity|reflexivity]. apply Inv_setsync, HI. }
   destruct (prev =? default (-99) (last (chain n))) eqn:E2.
-  { apply (Hproc n m HI eq_refl eq_refl eq_refl).
+  { apply (Hproc n m HI eq_refl eq_refl).
     - destruct (process_block n b prev txs valid); reflexivity.
     - destruct (process_block n b prev txs valid); reflexivity. }
   destruct (mem b (chain n)) eqn:E3.
   { eapply Hskip; [|reflexivity|reflexivity]. exact HI. }
   destruct (mem prev (chain n)) eqn:E4.
-  { destruct (Hblk (revert n prev)) as [HRs _]; [unfold o; cbn [header_node]; unfold in_chain; rewrite E1, E2, E3, E4; reflexivity|reflexivity|].
-    apply (Hproc (revert n prev) (revert_ms m prev)); [apply Inv_revert; assumption|reflexivity|reflexivity|reflexivity| |].
+  { apply (Hproc (revert n prev) (revert_ms m prev)); [apply Inv_revert; assumption|reflexivity|reflexivity| |].
     - destruct (process_block (revert n prev) b prev txs valid); reflexivity.
     - destruct (process_block (revert n prev) b prev txs valid); reflexivity. }
   eapply Hskip; [|reflexivity|reflexivity]. apply Inv_setsync, HI.
